@@ -434,6 +434,8 @@ def iterators(I, st, frame, t, name, self_ty, tys, trait, method, args, ev):
             return a0
         if I.refs_of(a0):
             return mk_iter(elem_of(I, st, a0))
+        if "[*]" not in a0.fields and ("start" in a0.fields or "end" in a0.fields):
+            return mk_iter(I.derive(st, [a0], "range"))
         return mk_iter(vfield(a0, "[*]"))
     if not is_iter_ctx:
         return NotImplemented
@@ -672,7 +674,8 @@ def storage(I, st, frame, t, name, tys, method, args, ev):
         if ev is not None:
             ev.extra["key"] = key
             ev.extra["value"] = without_tags_keep_call(r)
-            ev.extra["write"] = True
+            # a closure that can only return Err writes nothing
+            ev.extra["write"] = tagvals(r, "#v:" + RES) != {"Err"}
         return r
     if method in ("range", "range_raw", "keys", "keys_raw", "prefix_range", "prefix_range_raw"):
         bounds = I.derive(st, [D(a) for a in args[2:]], "bound")
